@@ -211,6 +211,13 @@ class GenX(F.Gen):
                 return [{'s': 'print', 'items': [op('sum', fc(), N(1))]}]
         for _ in range(20):
             ss = super().stmt(d)
+            for x in _flat(ss):
+                # `IF (c) CALL sub(..)` on one line is a construct of its own (feature 'callinlineif')
+                if x['s'] == 'if' and x.get('inline') and x['bodies'][0][0]['s'] == 'call':
+                    if 'callinlineif' in self.f:
+                        x['bodies'][0][0].pop('kworder', None)
+                    else:
+                        x.pop('inline')
             if self.acceptable(ss):
                 return ss
         return [assign(V('t1'), self.bounded(self.int_expr(1, self.int_scalars_noarr)))]
@@ -848,6 +855,8 @@ def warm_up():
         import loki.transformations.inline  # noqa: F401  pylint: disable=unused-import
         import loki.transformations.extract  # noqa: F401  pylint: disable=unused-import
         from loki import Sourcefile
+        from loki.logging import set_log_level, ERROR
+        set_log_level(ERROR)      # keep the transformations' progress messages out of the check's output
         Sourcefile.from_source('module wm\ncontains\nsubroutine ws(a)\ninteger, intent(inout) :: a\na = a + 1\nend subroutine ws\nend module wm\n').to_fortran()
         _WARM.append(1)
 
@@ -1188,6 +1197,8 @@ def tags(prog):
                 t.add('optional-absent' if any(a.get('k') == 'none' for a in s['args']) else 'optional-present')
             if s.get('kworder'):
                 t.add('kwargs')
+            if any(x['s'] == 'if' and x.get('inline') and x['bodies'][0][0] is s for x in flat):
+                t.add('call-in-inline-if')
             if any(c in units for c in called_names(cal)):
                 t.add('nested')
         fnames = {c['f'] for c in call_exprs(body) if c['f'] in units}
